@@ -842,6 +842,8 @@ class FragmentSender(object):
         self.user_callback = callback
 
         self.fragments = []
+        self.payloads = [] # fragments including the (id, index, count) header
+        self.msgseqs = []  # message sequence number used to send each fragment
         self.acks = []
 
     def build(self, payload):
@@ -862,11 +864,14 @@ class FragmentSender(object):
                 payload = payload[Packet.MAX_FRAGMENT_SIZE:]
 
         self.acks = [None] * len(self.fragments)
+        self.payloads = []
+        self.msgseqs = []
 
         for index, fragment in enumerate(self.fragments):
 
             payload = struct.pack(">HHH", self.frag_id, 1 + index, len(self.fragments))
             payload += fragment
+            self.payloads.append(payload)
             meta_callback = lambda success, idx=index: self.callback(idx, success)
 
             yield payload, meta_callback
@@ -874,9 +879,16 @@ class FragmentSender(object):
     def callback(self, index, success):
 
         if not success and self.retry != RetryMode.NONE:
-            # resend the fragment that timed out
+            # resend the fragment that timed out: the complete fragment
+            # including its header, using the same message sequence number
+            # so that the remote can detect a duplicate
             cbk = lambda success, idx=index: self.callback(idx, success)
-            self.conn._send_type(PacketType.APP_FRAGMENT, self.fragments[index], self.retry, cbk)
+            retry = self.retry
+            if retry == RetryMode.RETRY_ON_TIMEOUT:
+                retry = RetryMode.NONE
+            msg = PendingMessage(self.msgseqs[index], PacketType.APP_FRAGMENT,
+                self.payloads[index], cbk, retry)
+            self.conn.outgoing_messages.append(msg)
         else:
             self.acks[index] = success
 
@@ -1059,6 +1071,7 @@ class ConnectionBase(object):
 
             for frag, cbk in sender.build(payload):
                 self._send_type(PacketType.APP_FRAGMENT, frag, retry, cbk)
+                sender.msgseqs.append(self.seq_message)
 
             self.pending_fragments[self.seq_fragment] = sender
 
